@@ -371,7 +371,7 @@ func suiteFault(seed uint64, tier string) *Report {
 					shapes[fmt.Sprint(plan.kind, variant.persistent, t)] = true
 				}
 				rep.Violations = append(rep.Violations, fr.viols...)
-				if len(rep.Violations) > 30 {
+				if len(rep.Violations) > 60 {
 					rep.NonTrivial = len(shapes)
 					return rep
 				}
